@@ -313,7 +313,15 @@ def lock_files_never_removed(chk: Check):
             texts = set()
             for nn in g.nodes_of(c):
                 texts |= _may_values(target, nn, rd)
-            hit = [t for t in texts if "lockpath" in t or "xplock" in t or ".lock'" in t or '.lock"' in t or (in_lock_class and t in ("self.path", "self._path", "self.lockfile", "self.lockfile_path"))]
+                # the path of a lock object (`<lock>.path`, wrapped in Path(...) / os.fsdecode(...)): what the names inside the target may denote
+                for sub in ast.walk(target):
+                    if isinstance(sub, ast.Attribute) and sub.attr in ("path", "lockfile", "lockfile_path") and isinstance(sub.value, ast.Name):
+                        texts |= {"PATHOF(" + t + ")" for t in _may_values(sub.value, nn, rd)}
+                    elif isinstance(sub, ast.Name) and sub is not target:
+                        texts |= _may_values(sub, nn, rd)
+            hit = [t for t in texts if "lockpath" in t or "xplock" in t or ".lock'" in t or '.lock"' in t or "lockfiles" in t or "InterProcessLock(" in t
+                   or (t.startswith("PATHOF(") and ("self.locks" in t or "Lock(" in t))
+                   or (in_lock_class and t in ("self.path", "self._path", "self.lockfile", "self.lockfile_path"))]
             n += 1
             chk.require(not hit, chk.fkey(f, "removes a lock file"),
                         f"`{src(c)}` in `{f.qual}` removes / renames a lock file ({hit}): a process already waiting on the old file and a process arriving later would both hold 'the' lock", chk.loc(f.module, c))
